@@ -1,0 +1,99 @@
+//go:build verif
+
+// Contracts for the verification framework in /verif (comment-only file; it is
+// compiled only with -tags verif and contributes no code). Syntax: CONTRACTS.md.
+
+package nat
+
+// ---- manager.go: CGNAT port block allocation (C10) ----
+//
+// Abstract view: A = allocations (private IPv4 key -> *Allocation), P = pool
+// (public addresses with a subscriber count). The manager uses three
+// independent mutexes, so every invariant talks about the fields of ONE mutex
+// plus the configuration fields that are immutable after NewManager:
+//   allocationMu: A        poolMu: P        subscriberIDMu: id table
+// C10 for this structure:
+//   ablk  every block lies in [portRangeStart, portRangeEnd] and has exactly
+//         portsPerSubscriber ports,
+//   adisj two different subscribers on the same public address (pool index)
+//         hold disjoint port ranges,
+//   stability: AllocateNAT for a key that already holds a block returns the
+//         stored block and changes nothing.
+
+//@ pure func natCfgOK(m *Manager) bool = 1 <= m.portsPerSubscriber && m.portsPerSubscriber <= 65536 && 0 <= m.portRangeStart && m.portRangeStart <= m.portRangeEnd && m.portRangeEnd <= 65535
+//@ pure func natDisjoint(a *Allocation, b *Allocation) bool = a.PortEnd < b.PortStart || b.PortEnd < a.PortStart
+
+//@ type Manager
+//@   owns allocationMu: allocations
+//@   owns poolMu: pool
+//@   owns subscriberIDMu: nextSubscriberID subscriberIDs
+//@   inv cfg: natCfgOK(self)
+//@   inv sep: self.allocations != self.subscriberIDs
+//@   inv ann: self.allocations != nil && forall k uint32 :: k in self.allocations ==> self.allocations[k] != nil
+//@   inv ablk: forall k uint32 :: k in self.allocations ==> self.portRangeStart <= self.allocations[k].PortStart && self.allocations[k].PortStart <= self.allocations[k].PortEnd && self.allocations[k].PortEnd <= self.portRangeEnd && self.allocations[k].PortEnd - self.allocations[k].PortStart + 1 == self.portsPerSubscriber
+//@   inv adisj: forall a uint32, b uint32 :: a in self.allocations && b in self.allocations && a != b && self.allocations[a].PoolIndex == self.allocations[b].PoolIndex ==> natDisjoint(self.allocations[a], self.allocations[b])
+//@   inv pmax: forall i int :: 0 <= i && i < len(self.pool) ==> 0 <= self.pool[i].MaxSubscribers && self.pool[i].MaxSubscribers * self.portsPerSubscriber <= self.portRangeEnd - self.portRangeStart + 1
+//@   inv pcnt: forall i int :: 0 <= i && i < len(self.pool) ==> 0 <= self.pool[i].Subscribers && self.pool[i].Subscribers <= self.pool[i].MaxSubscribers
+//@   inv ids: self.subscriberIDs != nil && forall a uint32, b uint32 :: a in self.subscriberIDs && b in self.subscriberIDs && a != b ==> self.subscriberIDs[a] != self.subscriberIDs[b]
+//@   inv idnext: 1 <= self.nextSubscriberID && forall a uint32 :: a in self.subscriberIDs ==> 1 <= self.subscriberIDs[a] && self.subscriberIDs[a] < self.nextSubscriberID
+
+// NewManager: the invariants hold for the new manager for every ACCEPTED configuration
+// (no precondition on cfg: NewManager is the only validation point).
+//@ func NewManager
+//@   modifies nothing
+//@   ensures err == nil ==> result != nil && fresh(result) && natCfgOK(result)
+//@   ensures err == nil ==> result.sep && result.ann && result.ablk && result.adisj && result.pmax && result.pcnt && result.ids && result.idnext
+//@   ensures err == nil ==> card(result.allocations) == 0 && len(result.pool) == 0
+
+//@ func ipToKey
+//@   modifies nothing
+
+//@ func log2
+//@   modifies nothing
+
+//@ func (m *Manager) buildFlags
+//@   modifies nothing
+
+// Logger entry points: assumed to touch only the Logger's own buffers/files (trusted frame;
+// the Logger never holds a reference to the Manager or to an Allocation).
+//@ func (l *Logger) LogAllocation
+//@   trusted
+//@   requires alloc != nil
+//@   modifies l.buffer, l.portBlockBuffer, l.currentFile, l.currentSize
+
+//@ func (l *Logger) LogDeallocation
+//@   trusted
+//@   modifies l.buffer, l.portBlockBuffer, l.currentFile, l.currentSize
+
+// Subscriber ids: stable per private address and never shared by two addresses.
+//@ func (m *Manager) getOrCreateSubscriberID
+//@   modifies m.nextSubscriberID, m.subscriberIDs
+//@   ensures locked(privateIP in m.subscriberIDs) ==> result == locked(m.subscriberIDs[privateIP]) && dom(m.subscriberIDs) == locked(dom(m.subscriberIDs)) && vals(m.subscriberIDs) == locked(vals(m.subscriberIDs))
+//@   ensures !locked(privateIP in m.subscriberIDs) ==> dom(m.subscriberIDs) == locked(dom(m.subscriberIDs))[privateIP := true] && vals(m.subscriberIDs) == locked(vals(m.subscriberIDs))[privateIP := result]
+//@   ensures !locked(privateIP in m.subscriberIDs) ==> forall a uint32 :: locked(a in m.subscriberIDs) ==> locked(m.subscriberIDs[a]) != result
+
+//@ func (m *Manager) AddPublicIP
+//@   ensures err == nil ==> len(m.pool) == locked(len(m.pool)) + 1 && m.pool[len(m.pool)-1].Subscribers == 0
+//@   ensures err == nil ==> forall i int :: 0 <= i && i < locked(len(m.pool)) ==> m.pool[i] == locked(m.pool[i])
+
+// AllocateNAT. fresh(result) distinguishes the allocating path (the block object is created
+// by this call) from the stable path (the stored object is returned). locked() on the
+// allocating path is the state at the insertion into A.
+//@ func (m *Manager) AllocateNAT
+//@   ensures err == nil ==> result != nil
+//@   ensures err == nil && !fresh(result) ==> exists k uint32 :: lockedN(1, k in m.allocations) && lockedN(1, m.allocations[k]) == result
+//@   ensures err == nil && fresh(result) ==> forall k uint32 :: k in m.allocations && m.allocations[k] == result ==> !locked(k in m.allocations)
+//@   ensures err == nil && fresh(result) ==> forall k uint32 :: locked(k in m.allocations) ==> k in m.allocations && m.allocations[k] == locked(m.allocations[k])
+//@   ensures err == nil ==> m.portRangeStart <= result.PortStart && result.PortStart <= result.PortEnd && result.PortEnd <= m.portRangeEnd && result.PortEnd - result.PortStart + 1 == m.portsPerSubscriber
+
+//@ loop Manager.AllocateNAT#1
+//@   invariant selectedPool == nil
+//@   invariant m.pmax && m.pcnt && natCfgOK(m)
+
+// DeallocateNAT: the removal happens under allocationMu, the counter update later under
+// poolMu; what is checked are the lock invariants at both releases.
+//@ func (m *Manager) DeallocateNAT
+//@   ensures true
+
+//@ func (m *Manager) GetAllocation
+//@   ensures result != nil ==> m.portRangeStart <= result.PortStart && result.PortEnd <= m.portRangeEnd && result.PortEnd - result.PortStart + 1 == m.portsPerSubscriber
